@@ -214,15 +214,26 @@ SyntaxVisitor::Action NameCataloger::visitGotoStatement(const GotoStatementSynta
 // Ambiguities //
 //-------------//
 
+void NameCataloger::catalogNamesAsOfNode(const SyntaxNode* node)
+{
+    // A copy of what is catalogued up to the ambiguity: of the names that
+    // are declared, only those are in scope there (6.2.1-7).
+    catalog_->indexNodeAndMarkAsEncloser(node);
+    catalog_->dropEncloser();
+}
+
 SyntaxVisitor::Action NameCataloger::visitAmbiguousTypeNameOrExpressionAsTypeReference(
         const AmbiguousTypeNameOrExpressionAsTypeReferenceSyntax* node)
 {
+    catalogNamesAsOfNode(node);
+
     return Action::Skip;
 }
 
 SyntaxVisitor::Action NameCataloger::visitAmbiguousCastOrBinaryExpression(
         const AmbiguousCastOrBinaryExpressionSyntax* node)
 {
+    catalogNamesAsOfNode(node);
     visit(node->binaryExpression()->right());
 
     return Action::Skip;
@@ -231,6 +242,7 @@ SyntaxVisitor::Action NameCataloger::visitAmbiguousCastOrBinaryExpression(
 SyntaxVisitor::Action NameCataloger::visitAmbiguousExpressionOrDeclarationStatement(
         const AmbiguousExpressionOrDeclarationStatementSyntax* node)
 {
+    catalogNamesAsOfNode(node);
     auto expr = node->expressionStatement()->expression();
     switch (expr->kind()) {
         case SyntaxKind::MultiplyExpression: {
